@@ -16,20 +16,24 @@ From V.Proofs Require Import TemplatesProofs SrcObligationsGen ClassRoundtrip Co
       hypothesis that unstructure returned.
       Assumed of Python, not of cattrs: the primitive constructors return an equal instance of their own
       class when given one (int(5) == 5); classes are classes attrs / dataclasses can create, whose
-      attributes are all __init__ arguments without field converters.  Dict strategy, forbid_extra_keys off,
-      Annotated only where the structuring side is a Converter ([ann]). *)
+      attributes are all __init__ arguments without field converters.  Either unstructuring strategy
+      ([tup]: classes as dicts, or as tuples -- both sides of the round trip use the same strategy; under the
+      tuple strategy kw_only attributes are passed by keyword, obligation src_tuple_passes_kw_only_by_keyword
+      about the current source), forbid_extra_keys off, Annotated only where the structuring side is a
+      Converter ([ann]). *)
 Theorem C01_roundtrip :
-  forall (E : env) (dvU genS dvS ann : bool),
+  forall (E : env) (dvU genS dvS tup ann : bool),
     (ann = true -> genS = true) ->
     (forall p e, e_coerce E p (VAtom p e) = Ok (VAtom p e)) ->
-    (forall c cd, e_class E c = Some cd -> rt_class_ok (mk_cfg genS dvS false false) c cd) ->
+    (forall c cd, e_class E c = Some cd -> rt_class_ok (mk_cfg genS dvS tup false) c cd) ->
     forall (n : nat) (t : ty) (x u : val),
       rt_value E ann x t ->
-      unstructure E (mk_cfg true dvU false false) n t x = Ok u ->
-      structure E (mk_cfg genS dvS false false) n t u = Ok x.
+      unstructure E (mk_cfg true dvU tup false) n t x = Ok u ->
+      structure E (mk_cfg genS dvS tup false) n t u = Ok x.
 Proof.
-  intros E dvU genS dvS ann Hann Hco Henv.
-  apply roundtrip; [reflexivity | reflexivity | reflexivity | reflexivity | reflexivity | apply mk_cfg_recheck | apply mk_cfg_kw_last | exact Hann | exact Hco | exact Henv].
+  intros E dvU genS dvS tup ann Hann Hco Henv.
+  apply roundtrip; [reflexivity | reflexivity | intros _; exact src_tuple_passes_kw_only_by_keyword | reflexivity | reflexivity
+                    | apply mk_cfg_recheck | apply mk_cfg_kw_last | exact Hann | exact Hco | exact Henv].
 Qed.
 Print Assumptions C01_roundtrip.
 
@@ -38,18 +42,19 @@ Print Assumptions C01_roundtrip.
    gives the value back -- the statement above is never vacuous.  [M] bounds how many wrapper types
    (Optional / NewType / Annotated) the declared attribute types stack directly on top of each other. *)
 Theorem C01_roundtrip_total :
-  forall (E : env) (dvU genS dvS ann : bool) (M : nat),
+  forall (E : env) (dvU genS dvS tup ann : bool) (M : nat),
     (ann = true -> genS = true) ->
     (forall p e, e_coerce E p (VAtom p e) = Ok (VAtom p e)) ->
-    (forall c cd, e_class E c = Some cd -> rt_class_ok (mk_cfg genS dvS false false) c cd) ->
+    (forall c cd, e_class E c = Some cd -> rt_class_ok (mk_cfg genS dvS tup false) c cd) ->
     (forall c cd nm ft, e_class E c = Some cd -> assoc (cd_types cd) nm = Some ft -> maxw ft <= M) -> 2 <= M ->
     forall (t : ty) (x : val),
       rt_value E ann x t -> maxw t <= M ->
-      exists n u, unstructure E (mk_cfg true dvU false false) n t x = Ok u /\
-                  structure E (mk_cfg genS dvS false false) n t u = Ok x.
+      exists n u, unstructure E (mk_cfg true dvU tup false) n t x = Ok u /\
+                  structure E (mk_cfg genS dvS tup false) n t u = Ok x.
 Proof.
-  intros E dvU genS dvS ann M Hann Hco Henv HM HM2.
-  apply roundtrip_total; [reflexivity | reflexivity | reflexivity | reflexivity | reflexivity | apply mk_cfg_recheck | apply mk_cfg_kw_last | exact Hann | exact Hco | exact Henv | exact HM | exact HM2].
+  intros E dvU genS dvS tup ann M Hann Hco Henv HM HM2.
+  apply roundtrip_total; [reflexivity | reflexivity | intros _; exact src_tuple_passes_kw_only_by_keyword | reflexivity | reflexivity
+                          | apply mk_cfg_recheck | apply mk_cfg_kw_last | exact Hann | exact Hco | exact Henv | exact HM | exact HM2].
 Qed.
 Print Assumptions C01_roundtrip_total.
 
@@ -114,6 +119,18 @@ Example C01_nonvacuous_runs :
                  (VAtom PStr 3, VNone)])
   /\ forall genS dvS, match unstructure e1_env (mk_cfg true true false false) 9 (TClass 1) e1_x with
                       | Ok u => structure e1_env (mk_cfg genS dvS false false) 9 (TClass 1) u = Ok e1_x
+                      | _ => False end.
+Proof. split; [vm_compute; reflexivity|]. intros [|] [|]; vm_compute; reflexivity. Qed.
+
+(* the same value under the tuple strategy: classes become tuples in attribute order, the kw_only attribute (3, alias 13)
+   comes back by keyword *)
+Example C01_nonvacuous_runs_tuple :
+  unstructure e1_env (mk_cfg true true true false) 9 (TClass 1) e1_x
+    = Ok (VTuple [VDict [(VAtom PInt 21, VTuple [VAtom PInt 4; VSet [VAtom PStr 8; VAtom PStr 9]])];
+                  VList [VTuple [VDict []; VList []; VAtom PStr 7]];
+                  VNone])
+  /\ forall genS dvS, match unstructure e1_env (mk_cfg true true true false) 9 (TClass 1) e1_x with
+                      | Ok u => structure e1_env (mk_cfg genS dvS true false) 9 (TClass 1) u = Ok e1_x
                       | _ => False end.
 Proof. split; [vm_compute; reflexivity|]. intros [|] [|]; vm_compute; reflexivity. Qed.
 
